@@ -302,28 +302,35 @@ def run(tier, out):
     p_samples = {2: [], 3: []}
     tot_kinds = collections.Counter()
 
-    def run_cases(n, mode, paths, tag, chunk=40000):
-        """replay in chunks (bounded memory); returns the first chunk's cases and results for the samples"""
+    def run_cases(n, mode, paths, tag, chunk=40000, par=1):
+        """replay in chunks (bounded memory; `par` harness processes side by side - the lock-step replay mostly
+        waits on thread hand-overs); returns the first chunk's cases and results for the samples"""
+        from concurrent.futures import ThreadPoolExecutor
         first = None
         st = stats[mode]
-        for lo in range(0, len(paths), chunk):
+
+        def one(lo):
             cases = [{"id": "%s.%d" % (tag, lo + i), "cfg": {"n": n, "mode": mode}, "acts": p}
                      for i, p in enumerate(paths[lo:lo + chunk])]
-            results = rp.run_cases(MEMBER, BIN, cases, wd, tag=tag, input_keys=INPUT_KEYS)
-            st["cases"] += len(cases)
-            triage(out, judge, n, cases, results, "TimeoutCoord[N=%d,%s]" % (n, mode), st)
-            for c_, r_ in list(zip(cases, results))[:: max(1, len(paths) // 40)]:
-                if "ev" in r_ and not r_.get("hang") and not r_.get("panic"):
-                    p_samples[n].append(trace_of(r_))
-            if first is None:
-                first = (cases, results)
-            if st["rejected"] >= 4 * MAX_REPORT:
-                out.notes.append("replay of %s stopped early: enough violations to report" % tag)
-                break
+            return cases, rp.run_cases(MEMBER, BIN, cases, wd, tag="%s_%d" % (tag, lo), input_keys=INPUT_KEYS)
+        los = list(range(0, len(paths), chunk))
+        with ThreadPoolExecutor(max_workers=par) as ex:
+            for g0 in range(0, len(los), par):
+                for cases, results in ex.map(one, los[g0:g0 + par]):
+                    st["cases"] += len(cases)
+                    triage(out, judge, n, cases, results, "TimeoutCoord[N=%d,%s]" % (n, mode), st)
+                    for c_, r_ in list(zip(cases, results))[:: max(1, len(paths) // 40)]:
+                        if "ev" in r_ and not r_.get("hang") and not r_.get("panic"):
+                            p_samples[n].append(trace_of(r_))
+                    if first is None:
+                        first = (cases, results)
+                if st["rejected"] >= 4 * MAX_REPORT:
+                    out.notes.append("replay of %s stopped early: enough violations to report" % tag)
+                    break
         return first if first else ([], [])
 
     # ---- B1-sequential
-    depth = {2: 6 if quick else 7, 3: 5 if quick else 6}
+    depth = {2: 6 if quick else 8, 3: 5 if quick else 6}
     for n in (2, 3):
         r, g = dump_graph(n, True, wd, "gseq%d" % n)
         ops = op_graph(g)
@@ -347,7 +354,7 @@ def run(tier, out):
     for n in (2, 3):
         if n == 2 or not quick:
             r, g = dump_graph(n, False, wd, "gconc%d" % n)
-            paths = g.covering_paths(extend=6, rng=rng)
+            paths = g.covering_paths(extend=6 if n == 2 else 2, rng=rng)
             paths += g.random_walks(300 if quick else 2000, 60, rng)
             tot["transitions"] += g.n_edges
             tot["conc_graph_edges_covered"] += g.n_edges
@@ -358,7 +365,7 @@ def run(tier, out):
         sim = simulate(n, (400 if n == 2 else 1500) if quick else 4000, 60, wd, "sim%d" % n, core.seed())
         paths += sim
         tot["tlc_simulated_behaviours"] += len(sim)
-        cases, results = run_cases(n, "conc", paths, "conc%d" % n)
+        cases, results = run_cases(n, "conc", paths, "conc%d" % n, chunk=10000, par=3)
         kinds = step_kinds(paths)
         for k_, v_ in kinds.items():
             tot_kinds["N=%d %s" % (n, k_)] += v_
@@ -382,7 +389,7 @@ def run(tier, out):
 
     phase("P_samples")
     # ---- B2 stress
-    stress(out, judge, wd, rng, tot, runs=300 if quick else 4000, ops=10 if quick else 14)
+    stress(out, judge, wd, rng, tot, runs=300 if quick else 8000, ops=10 if quick else 14)
     phase("B2_stress")
     core.log("[C17] phase wall times (s): %s" % phases)
 
